@@ -257,7 +257,9 @@ def command_value(rng, vc, thorough=False):
     if vc == "none":
         return None
     if vc == "hostile":
-        return rng.choice([("posix", "a \"b c\" 'd e' \\f"), ("win", "x.exe \"q q\" 'r r'"), ("posix", "tab\targ new\nline"), ("auto", "c:\\auto\\detect.exe /x"), ("auto", "auto detect posix")])
+        return rng.choice([("posix", "a \"b c\" 'd e' \\f"), ("win", "x.exe \"q q\" 'r r'"), ("posix", "tab\targ new\nline"), ("auto", "c:\\auto\\detect.exe /x"), ("auto", "auto detect posix"),
+                           ("win", "\"C:\\Users\\O'Neil\\my app.exe\" /q"), ("win", "'c:\\path with space\\it''s.exe' -a \"b c\""), ("posix", "\"/opt/o'neil dir/run me\" --flag 'x y'"),
+                           ("posix", "'/bin/ends with space ' arg"), ("posix", "/bin/sh -c 'echo \"nested \\\"q\\\"\"'")])
     if rng.random() < 0.5:
         return ("posix", rng.choice(POSIX_CMDS))
     return ("win", rng.choice(WIN_CMDS))
